@@ -2,6 +2,7 @@ package simrt
 
 import (
 	"errors"
+	"io"
 	iofs "io/fs"
 	"os"
 	"path/filepath"
@@ -66,6 +67,10 @@ type Disk struct {
 	Universal        bool
 	UniversalRoot    string
 	UniversalContent []byte
+	// Special: paths that behave like a FIFO or a /proc file - every stat (of the path or of an open
+	// descriptor) reports the size given here (0 for a FIFO), whatever the content is; reads deliver
+	// the whole content. os.ReadFile copes with that; code that trusts the reported size does not.
+	Special map[string]int64
 	// ShadowDir: every path below this directory exists as a regular file holding
 	// UniversalContent (a working directory in which any relative name resolves).
 	ShadowDir string
@@ -276,6 +281,9 @@ func (d *Disk) stat(op, name string) (os.FileInfo, error) {
 	case nFile:
 		d.log(op, name, nil, len(c), FNone)
 		d.lastStatOK[p] = true
+		if sz, ok := d.Special[p]; ok {
+			return fileInfo{name: filepath.Base(p), size: sz}, nil
+		}
 		return fileInfo{name: filepath.Base(p), size: int64(len(c))}, nil
 	case nDir:
 		d.log(op, name, nil, 0, FNone)
@@ -480,6 +488,21 @@ func FSOpen(name string) (*os.File, error) {
 	if err != nil {
 		return nil, err
 	}
+	d.mu.Lock()
+	_, special := d.Special[p]
+	d.mu.Unlock()
+	if special {
+		// a pipe: fstat reports size 0, reads deliver the content and then EOF
+		pr, pw, err := os.Pipe()
+		if err != nil {
+			fatalf("FSOpen: pipe: %v", err)
+		}
+		go func(b []byte) {
+			_, _ = pw.Write(b)
+			_ = pw.Close()
+		}(append([]byte(nil), c...))
+		return renamed(pr)
+	}
 	f, err := os.CreateTemp("", "simrt-open-*")
 	if err != nil {
 		fatalf("FSOpen: %v", err)
@@ -604,4 +627,153 @@ func (d *Disk) LastRead() map[string]string {
 		out[k] = v
 	}
 	return out
+}
+
+// ---------------------------------------------------------------- directory listings through *os.File
+
+// listing of an opened directory: the order is the file system's business, so the simulator
+// decides it (one decision per opened handle; choice 0 = ascending by name, as os.ReadDir sorts).
+type dirListing struct {
+	entries []dirEntry
+	next    int
+}
+
+var dirListings = struct {
+	mu sync.Mutex
+	m  map[*os.File]*dirListing
+}{m: map[*os.File]*dirListing{}}
+
+func (d *Disk) listingOf(f *os.File) (*dirListing, error) {
+	dirListings.mu.Lock()
+	defer dirListings.mu.Unlock()
+	if l, ok := dirListings.m[f]; ok {
+		return l, nil
+	}
+	name := f.Name()
+	ee, err := FSReadDir(name) // consumes one call, applies planned errno faults, logs
+	if err != nil {
+		return nil, err
+	}
+	l := &dirListing{}
+	for _, e := range ee {
+		l.entries = append(l.entries, e.(dirEntry))
+	}
+	if n := len(l.entries); n >= 2 && Active {
+		var h uint32
+		for i := 0; i < len(name); i++ {
+			h = h*131 + uint32(name[i])
+		}
+		var p int
+		switch mapPolicy {
+		case MapNative, MapAsc:
+			p = 0
+		case MapDesc:
+			p = 1
+		case MapRot:
+			p = 2
+		default:
+			p = 3 + RandN(60000)
+		}
+		c := Decide(KDirOrder, int32(h&0x7fffffff), 1<<16, p)
+		switch {
+		case c == 0:
+		case c == 1:
+			for i, j := 0, n-1; i < j; i, j = i+1, j-1 {
+				l.entries[i], l.entries[j] = l.entries[j], l.entries[i]
+			}
+		case c == 2:
+			h := n / 2
+			l.entries = append(append([]dirEntry{}, l.entries[h:]...), l.entries[:h]...)
+		default:
+			x := uint64(c)*0x9E3779B97F4A7C15 + 77
+			for i := n - 1; i > 0; i-- {
+				x ^= x >> 12
+				x ^= x << 25
+				x ^= x >> 27
+				j := int((x * 0x2545F4914F6CDD1D) % uint64(i+1))
+				l.entries[i], l.entries[j] = l.entries[j], l.entries[i]
+			}
+		}
+		if c != 0 {
+			DirListingsReordered++
+		}
+	}
+	if len(dirListings.m) > 4096 {
+		dirListings.m = map[*os.File]*dirListing{}
+	}
+	dirListings.m[f] = l
+	return l, nil
+}
+
+// DirListingsReordered counts listings handed out in a non-ascending order (evidence).
+var DirListingsReordered int
+
+func (l *dirListing) take(n int) ([]dirEntry, error) {
+	rest := l.entries[l.next:]
+	if n <= 0 {
+		l.next = len(l.entries)
+		return rest, nil
+	}
+	if len(rest) == 0 {
+		return nil, io.EOF
+	}
+	if n > len(rest) {
+		n = len(rest)
+	}
+	l.next += n
+	return rest[:n], nil
+}
+
+// FileReaddirnames is f.Readdirnames(n).
+func FileReaddirnames(f *os.File, n int) ([]string, error) {
+	d := sim()
+	if d == nil {
+		return f.Readdirnames(n)
+	}
+	l, err := d.listingOf(f)
+	if err != nil {
+		return nil, err
+	}
+	ee, err := l.take(n)
+	out := make([]string, 0, len(ee))
+	for _, e := range ee {
+		out = append(out, e.Name())
+	}
+	return out, err
+}
+
+// FileReadDir is f.ReadDir(n).
+func FileReadDir(f *os.File, n int) ([]os.DirEntry, error) {
+	d := sim()
+	if d == nil {
+		return f.ReadDir(n)
+	}
+	l, err := d.listingOf(f)
+	if err != nil {
+		return nil, err
+	}
+	ee, err := l.take(n)
+	out := make([]os.DirEntry, 0, len(ee))
+	for _, e := range ee {
+		out = append(out, e)
+	}
+	return out, err
+}
+
+// FileReaddir is f.Readdir(n).
+func FileReaddir(f *os.File, n int) ([]os.FileInfo, error) {
+	d := sim()
+	if d == nil {
+		return f.Readdir(n)
+	}
+	l, err := d.listingOf(f)
+	if err != nil {
+		return nil, err
+	}
+	ee, err := l.take(n)
+	out := make([]os.FileInfo, 0, len(ee))
+	for _, e := range ee {
+		out = append(out, e.fileInfo)
+	}
+	return out, err
 }
